@@ -25,8 +25,20 @@ def run(tier, corrupt=False):
     types = library()
     with scratch("c15-") as tmp:
         progs = full_corpus(tmp, tier, n_generated=(60 if tier == "quick" else 600))
-        interesting = [p for p in progs if any(k in json.dumps(p["code"]) for k in ('"chunked"', '"switch"', "Named", "Coords", "Tail", "Item", "HDummyAfter"))]
-        sel = interesting if tier == "thorough" else interesting[(seed() % 2)::2]
+        interesting = [p for p in progs if any(k in json.dumps(p["code"]) for k in ('"chunked"', '"switch"', "Named", "Coords", "Tail", "Item", "HDummyAfter", "HBlob"))]
+        # quick: every hand-written program, every other one of the generated ones (the amount of work must not depend on the seed)
+        if tier == "thorough":
+            sel = interesting
+        else:
+            must = [p for p in interesting if not p.get("gen")]
+            rest = [p for p in interesting if p not in must]
+            sel = must + rest[(seed() % 2)::2]
+        # a program that uses another program as a field type needs it in the same model
+        byname = {p["name"]: p for p in progs}
+        for p in list(sel):
+            for q in byname.values():
+                if q["kind"] == "struct" and q not in sel and f'"{q["name"]}' in json.dumps(p["code"]):
+                    sel.append(q)
         nf = 5 if tier == "quick" else 8
         r1, s1 = collect(tier, tmp, sel, types, "ser", rich=False, nfuel=nf, invariants=("SerLeavesModeAsFound", "PNoSilentFailure"),
                          properties=("PModeRestored",), tag="sf")
